@@ -18,3 +18,4 @@ registry['C18'] = _lazy('c18')
 registry['C15'] = _lazy('c15')
 registry['C14'] = _lazy('c14')
 registry['C13'] = _lazy('c13')
+registry['C12'] = _lazy('c12')
